@@ -119,7 +119,11 @@ def default_key(v: Dict[str, Any]) -> str:
     reasons = ",".join(sorted({x["reason"] for x in e.get("errors", [])})) if isinstance(e.get("errors"), list) else ""
     sch = v.get("schema", {})
     kinds = ",".join(c.get("k", "") for c in sch.get("checks", [])) if isinstance(sch.get("checks"), list) else ""
-    return "%s|%s|%s|%s" % (v.get("kind"), e.get("sat", e.get("outcome")), reasons, kinds)
+    extra = ""
+    if "opts" in v:
+        extra = "|%s|%s|%s" % (json.dumps(v["opts"], sort_keys=True), sorted(v.get("devs") or []),
+                               (sch.get("dtype"), sch.get("coerce"), v.get("data", {}).get("pd")))
+    return "%s|%s|%s|%s%s" % (v.get("kind"), e.get("sat", e.get("kind")), reasons, kinds, extra)
 
 
 def write_replay(prop_id: str, payload: Dict[str, Any]) -> str:
